@@ -48,7 +48,7 @@ ASSUMPTIONS = ["Host header / :authority agree with the request target (as a rea
                "coded bodies are produced with stdlib gzip/zlib and the brotli/zstandard modules"]
 LEVEL_TEXT = "exploration: sampled HTTP exchanges over methods, versions, header sets, body kinds, charsets and content codings"
 LEVEL_NOTE = "compares attributes of imported flows with attributes of the exported flows; no reference HAR writer"
-QUICK_N, THOROUGH_N = 30_000, 1_000_000
+QUICK_N, THOROUGH_N = 16_000, 1_000_000
 
 T0 = 1700000000.0
 
